@@ -25,7 +25,7 @@ RULE = (
     "(<= 1 in three quarters of the cases, <= 4 otherwise), nx,ny in 4..8, a domain size relative to the column height, an output "
     "level in {surface, 1/4, 1/2, top} and a dense random source. The solver is run at n and 4n layers (halo=0, double) and the "
     "per-mode transfer functions fft2(conc)/fft2(q0), fft2(flux)/fft2(q0) are compared with the Riccati/DOP853 reference of the "
-    "continuous BVP. Admitted modes: r = max_i |T|dz_i^2/Kz <= 1 on the coarse grid, sum Re(lambda)dz <= 18 over the column and <= 8 up to the output height; components on the unpaired Nyquist row/column of even grids are compared with the real-part combination (H(k)+conj(H(k')))/2 of the reference (the relative rounding error of "
+    "continuous BVP. Admitted modes: r = max_i |T|dz_i^2/Kz <= 1 on the coarse grid, sum Re(lambda)dz <= 18 over the column and <= 8 up to the output height; components on the unpaired Nyquist row/column of even grids are compared with the real-part combination (H(k)+conj(H(k')))/2 of the reference, the error measured against the larger of the two parts (the relative rounding error of "
     "the decayed response at height z is ~ eps*exp(2*growth(z))). Assertions: (a) E(n) <= 6*delta(n), E(4n) <= 6*delta(4n), and E(4n) < E(n) unless E(4n) <= delta(4n) (a coarse-grid error can be accidentally small) or both < 1e-6, over all admitted modes; (b) rate "
     "E(4n) <= max(E(n)/2.5, 1e-6) over admitted modes with r <= 0.5 on grids with delta <= 1 and at least 16 layers (E = max over the mode set of the "
     "larger of the relative conc- and flux-transfer errors). Non-trivial = >= 2 admitted modes, Kz(top)/Kz(z0) >= 2 and E(n) > 1e-5; "
@@ -234,15 +234,18 @@ def check_case(c):
         for (j, i, r, parts) in sel:
             if len(parts) == 1:
                 cr, qr = href(parts[0][0], parts[0][1], float(z[lvl]))
+                cs_, qs_ = abs(cr), abs(qr)
             else:
                 c1_, q1_ = href(parts[0][0], parts[0][1], float(z[lvl]))
                 c2_, q2_ = href(parts[1][0], parts[1][1], float(z[lvl]))
                 cr, qr = 0.5 * (c1_ + np.conj(c2_)), 0.5 * (q1_ + np.conj(q2_))
-                if abs(cr) < 0.1 * max(abs(c1_), abs(c2_)) or abs(qr) < 0.1 * max(abs(q1_), abs(q2_)):
-                    continue  # the two parts nearly cancel: no meaningful relative error
+                # the error of the combination is measured against the size of its parts: a relative error E of each
+                # part bounds |dH| by E*max|part|, whereas |cr| itself can be much smaller (the real part of a
+                # response whose phase is near 90 degrees), which would amplify a legitimate error without bound
+                cs_, qs_ = max(abs(c1_), abs(c2_)), max(abs(q1_), abs(q2_))
                 if n == n0:
                     n_nyq += 1
-            e = max(abs(Hc[j, i] - cr) / abs(cr), abs(Hq[j, i] - qr) / abs(qr))
+            e = max(abs(Hc[j, i] - cr) / cs_, abs(Hq[j, i] - qr) / qs_)
             ea = max(ea, e)
             if r <= 0.5:
                 eh = max(eh, e)
